@@ -34,8 +34,15 @@ def main():
         if r.returncode != 0:
             matrix[m] = {"error": "patch does not apply"}
             continue
-        row = {}
-        for p in PROPS:
+        row = matrix.get(m, {}) if isinstance(matrix.get(m), dict) else {}
+        # The full cross product costs ~4 minutes per change on an idle
+        # machine; by default only the change's own property and the general
+        # differential / crash / diagnostic / determinism checks are run
+        # (MATRIX_FULL=1 runs all twenty).
+        cols = PROPS if os.environ.get("MATRIX_FULL") else sorted(set([prop_of(m), "C01", "C02", "C17", "C19"]))
+        for p in cols:
+            if p in row and row[p].get("exit") in (0, 1):
+                continue
             t0 = time.time()
             try:
                 r = sh(["./check", p, "quick"], cwd="/verif", env=ENV, timeout=900)
